@@ -440,9 +440,13 @@ pub(crate) fn ob_stub_vec<const UP: bool>(used: usize, n: usize, foreign: bool, 
     let mut c = Ctx { m: [0u16; 12], mlen: 0, x: kani::any(), cap1: 0, len1: 0, addr1: 0, idx: 1 };
     let mut i = 0;
     while i < n {
+        let (cap_b, addr_b, len_b) = (v.capacity(), v.as_ptr() as usize, v.len());
         if v.try_push(vals[i]).is_ok() {
             c.m[c.mlen] = vals[i];
             c.mlen += 1;
+        }
+        if len_b < cap_b {
+            kani::assert(v.capacity() == cap_b && v.as_ptr() as usize == addr_b && v.len() == len_b + 1, "C08.bump_vec.push_within_capacity_does_not_reallocate");
         }
         i += 1;
     }
@@ -486,6 +490,10 @@ fn op_reserve<const UP: bool>(v: &mut SV<'_, UP>, c: &mut Ctx) -> bool {
     if ok {
         kani::assert(v.capacity() >= c.len1 + add, "C08.bump_vec.reserve_promise");
     }
+    if add <= c.cap1 - c.len1 {
+        kani::assert(ok && v.capacity() == c.cap1 && (c.cap1 == 0 || v.as_ptr() as usize == c.addr1), "C08.bump_vec.no_reallocation_while_the_capacity_suffices");
+    }
+    kani::cover!(add == c.cap1 - c.len1 && c.cap1 > 0, "reserve-exactly-the-spare-capacity");
     kani::cover!(ok && add > c.cap1 - c.len1, "reserve-grows");
     kani::cover!(!ok && add > (isize::MAX as usize) / 2 && c.cap1 > 0, "reserve-overflow-on-a-vector-with-a-buffer");
     kani::cover!(!ok && add < 8, "reserve-refused");
@@ -500,6 +508,10 @@ fn op_reserve_exact<const UP: bool>(v: &mut SV<'_, UP>, c: &mut Ctx) -> bool {
     if ok {
         kani::assert(v.capacity() >= c.len1 + add, "C08.bump_vec.reserve_exact_promise");
     }
+    if add <= c.cap1 - c.len1 {
+        kani::assert(ok && v.capacity() == c.cap1 && (c.cap1 == 0 || v.as_ptr() as usize == c.addr1), "C08.bump_vec.no_reallocation_while_the_capacity_suffices");
+    }
+    kani::cover!(add == c.cap1 - c.len1 && c.cap1 > 0, "reserve-exact-exactly-the-spare-capacity");
     kani::cover!(ok && add > c.cap1 - c.len1, "reserve-exact-grows");
     kani::cover!(!ok && c.cap1 > 0, "reserve-exact-fails");
     ok
@@ -635,6 +647,8 @@ stubvec! {
     stub_vec_reserve_foreign_up: true, 2, 2, true, op_reserve;
     stub_vec_insert_foreign_dn: false, 0, 4, true, op_insert;
     stub_vec_extend_foreign_up: true, 0, 3, true, op_extend;
+    stub_vec_reserve_exact_foreign_up: true, 0, 3, true, op_reserve_exact;
+    stub_vec_reserve_exact_foreign_dn: false, 2, 3, true, op_reserve_exact;
 }
 
 // ------------------------------------------------------------------------------------------------ BumpVec: shrinking and conversions
@@ -959,6 +973,9 @@ fn mop_reserve<'a, const UP: bool, V: MutVecLike<'a, UP>>(v: &mut V, c: &mut Ctx
     if ok {
         kani::assert(v.cap_() >= c.len1 + add, "C08.mut_vec.reserve_promise");
     }
+    if add <= c.cap1 - c.len1 {
+        kani::assert(ok && v.cap_() == c.cap1, "C08.mut_vec.no_reallocation_while_the_capacity_suffices");
+    }
     kani::cover!(c.addr1 != 0 || (ok && add > c.cap1 - c.len1 && c.len1 > 0), "reserve-grows");
     kani::cover!(c.addr1 == 0 || (!ok && add < 64 && c.len1 > 0), "reserve-refused");
     kani::cover!(!ok && add > (isize::MAX as usize) / 2 && c.len1 > 0, "reserve-overflows");
@@ -972,6 +989,9 @@ fn mop_reserve_exact<'a, const UP: bool, V: MutVecLike<'a, UP>>(v: &mut V, c: &m
     }
     if ok {
         kani::assert(v.cap_() >= c.len1 + add, "C08.mut_vec.reserve_exact_promise");
+    }
+    if add <= c.cap1 - c.len1 {
+        kani::assert(ok && v.cap_() == c.cap1, "C08.mut_vec.no_reallocation_while_the_capacity_suffices");
     }
     kani::cover!(c.addr1 != 0 || (ok && add > c.cap1 - c.len1 && c.len1 > 0), "reserve-exact-grows");
     kani::cover!(!ok && c.len1 > 0, "reserve-exact-fails");
@@ -1075,4 +1095,236 @@ stubmut! {
     stub_mut_vec_rev_insert_up: true, MutBumpVecRev, 56, 2, 0, mop_insert;
     stub_mut_vec_rev_insert_dn: false, MutBumpVecRev, 54, 2, 0, mop_insert;
     stub_mut_vec_rev_insert_dn_refused: false, MutBumpVecRev, 54, 2, 1, mop_insert;
+}
+
+// ------------------------------------------------------------------------------------------------ BumpString (C09 / C07)
+use super::h_coll::{SymStr, same, sym_text, valid_utf8};
+use std::string::String;
+
+pub(crate) type SS<'a, const UP: bool> = BumpString<&'a StubBump<UP>>;
+
+pub(crate) struct SCtx {
+    /// std oracle
+    pub(crate) m: String,
+    /// the text that is pushed / inserted (concrete UTF-8 length pattern, symbolic scalar values)
+    pub(crate) x: SymStr,
+    /// a concrete boundary index of the original text (the length of its first character) and its total length
+    pub(crate) idx: usize,
+    pub(crate) total: usize,
+    pub(crate) cap1: usize,
+    pub(crate) len1: usize,
+    pub(crate) addr1: usize,
+    pub(crate) refused: bool,
+}
+
+/// `BumpString` over the contract: built from a text with the concrete UTF-8 length pattern `pat`, optionally behind
+/// another block, then ONE operation `f` with requests served or refused (concrete): on failure nothing changed (C07),
+/// otherwise the contents equal std::string::String's after the same operation; always valid UTF-8 (independent
+/// validator), capacity >= len, buffer a live block (C01); drop reclaims at most the own buffer.
+pub(crate) fn ob_stub_string<const UP: bool>(used: usize, pat: [usize; 2], xpat: [usize; 2], foreign: bool, refused: bool, f: impl FnOnce(&mut SS<'_, UP>, &mut SCtx) -> bool) {
+    let stub = StubBump::<UP>::new_at(used);
+    let s0 = sym_text(pat);
+    let Ok(mut s) = BumpString::try_from_str_in(s0.as_str(), &stub) else {
+        kani::assert(false, "C08.bump_string.from_str_that_is_not_refused_succeeds");
+        return;
+    };
+    kani::assert(same(s.as_bytes(), s0.as_str().as_bytes()) && s.capacity() >= s.len(), "C09.bump_string.from_str.same_contents");
+    if foreign {
+        let _ = stub.allocate(Layout::new::<u16>());
+    }
+    let mut c = SCtx { m: String::from(s0.as_str()), x: sym_text(xpat), idx: pat[0], total: pat[0] + pat[1], cap1: s.capacity(), len1: s.len(), addr1: s.as_ptr() as usize, refused };
+    stub.refuse.set(refused);
+    let ok = f(&mut s, &mut c);
+    stub.refuse.set(false);
+    if !ok {
+        kani::assert(s.len() == c.len1 && s.capacity() == c.cap1 && s.as_ptr() as usize == c.addr1, "C07.bump_string.failed_growth_changes_neither_length_capacity_nor_buffer");
+    }
+    kani::assert(same(s.as_bytes(), c.m.as_bytes()), "C09.bump_string.same_contents_as_std_string");
+    kani::assert(valid_utf8(s.as_bytes()), "C09.bump_string.contents_are_valid_utf8");
+    kani::assert(s.capacity() >= s.len(), "C08.bump_string.capacity_at_least_len");
+    kani::assert(s.capacity() == 0 || stub.owns(s.as_ptr() as usize, s.capacity()), "C01.bump_string.buffer_is_a_live_block");
+    drop(s);
+    kani::assert(stub.used() >= used, "C13.bump_string.drop_reclaims_only_its_own_buffer");
+}
+
+fn first_char(x: &SymStr) -> char {
+    x.as_str().chars().next().unwrap()
+}
+fn sop_push<const UP: bool>(s: &mut SS<'_, UP>, c: &mut SCtx) -> bool {
+    let ch = first_char(&c.x);
+    let ok = s.try_push(ch).is_ok();
+    if ok {
+        c.m.push(ch);
+    }
+    kani::cover!(ok != c.refused, "push-served-or-refused");
+    ok
+}
+fn sop_push_str<const UP: bool>(s: &mut SS<'_, UP>, c: &mut SCtx) -> bool {
+    let ok = s.try_push_str(c.x.as_str()).is_ok();
+    if ok {
+        c.m.push_str(c.x.as_str());
+    }
+    kani::cover!(ok != c.refused, "push-str-served-or-refused");
+    ok
+}
+fn sop_insert<const UP: bool>(s: &mut SS<'_, UP>, c: &mut SCtx) -> bool {
+    let ch = first_char(&c.x);
+    let ok = s.try_insert(c.idx, ch).is_ok();
+    if ok {
+        c.m.insert(c.idx, ch);
+    }
+    kani::cover!(ok != c.refused, "insert-served-or-refused");
+    ok
+}
+fn sop_insert_str<const UP: bool>(s: &mut SS<'_, UP>, c: &mut SCtx) -> bool {
+    let ok = s.try_insert_str(c.idx, c.x.as_str()).is_ok();
+    if ok {
+        c.m.insert_str(c.idx, c.x.as_str());
+    }
+    kani::cover!(ok != c.refused, "insert-str-served-or-refused");
+    ok
+}
+fn sop_extend_within<const UP: bool>(s: &mut SS<'_, UP>, c: &mut SCtx) -> bool {
+    let ok = s.try_extend_from_within(..c.idx).is_ok();
+    if ok {
+        c.m.extend_from_within(..c.idx);
+    }
+    kani::cover!(ok != c.refused, "extend-within-served-or-refused");
+    ok
+}
+fn sop_replace_range<const UP: bool>(s: &mut SS<'_, UP>, c: &mut SCtx) -> bool {
+    // replace the second character by the (longer) text x
+    let ok = s.try_replace_range(c.idx..c.total, c.x.as_str()).is_ok();
+    if ok {
+        c.m.replace_range(c.idx..c.total, c.x.as_str());
+    }
+    kani::cover!(ok != c.refused, "replace-range-served-or-refused");
+    ok
+}
+fn sop_replace_range_shorter<const UP: bool>(s: &mut SS<'_, UP>, c: &mut SCtx) -> bool {
+    // replace the first character by the text x (not longer than the capacity: never needs memory)
+    let ok = s.try_replace_range(..c.idx, c.x.as_str()).is_ok();
+    if ok {
+        c.m.replace_range(..c.idx, c.x.as_str());
+    }
+    kani::cover!(ok, "replace-range-shorter-ok");
+    ok
+}
+fn sop_reserve<const UP: bool>(s: &mut SS<'_, UP>, c: &mut SCtx) -> bool {
+    let add: usize = kani::any();
+    let ok = s.try_reserve(add).is_ok();
+    if add > isize::MAX as usize {
+        kani::assert(!ok, "C07.bump_string.overflowing_reserve_is_an_error");
+    }
+    if ok {
+        kani::assert(s.capacity() >= c.len1 + add, "C08.bump_string.reserve_promise");
+    }
+    if add <= c.cap1 - c.len1 {
+        kani::assert(ok && s.capacity() == c.cap1 && s.as_ptr() as usize == c.addr1, "C08.bump_string.no_reallocation_while_the_capacity_suffices");
+    }
+    kani::cover!(c.refused || (ok && add > c.cap1 - c.len1), "reserve-grows");
+    kani::cover!(!ok && add > isize::MAX as usize, "reserve-overflows");
+    ok
+}
+fn sop_shrink_and_box<const UP: bool>(s: &mut SS<'_, UP>, c: &mut SCtx) -> bool {
+    let _ = s.try_reserve(4);
+    let cap = s.capacity();
+    s.shrink_to_fit();
+    kani::assert(s.capacity() <= cap && s.capacity() >= s.len(), "C08.bump_string.shrink_to_fit.capacity");
+    kani::cover!(s.capacity() < cap, "shrunk");
+    true
+}
+
+macro_rules! stubstr {
+    ($($name:ident: $up:expr, $used:expr, [$a:expr, $b:expr], [$xa:expr, $xb:expr], $foreign:expr, $refused:expr, $op:ident;)*) => {$(
+        #[kani::proof]
+        #[kani::unwind(12)]
+        pub(crate) fn $name() {
+            ob_stub_string::<$up>($used, [$a, $b], [$xa, $xb], $foreign, $refused, $op::<$up>);
+        }
+    )*};
+}
+stubstr! {
+    stub_str_push_up: true, 0, [1, 2], [3, 0], false, false, sop_push;
+    stub_str_push_dn: false, 3, [2, 1], [4, 0], false, false, sop_push;
+    stub_str_push_foreign_up: true, 0, [3, 1], [2, 0], true, false, sop_push;
+    stub_str_push_refused_dn: false, 0, [1, 3], [1, 0], true, true, sop_push;
+    stub_str_push_str_up: true, 2, [2, 2], [1, 3], false, false, sop_push_str;
+    stub_str_push_str_dn: false, 0, [1, 1], [2, 2], true, false, sop_push_str;
+    stub_str_push_str_refused_up: true, 0, [4, 0], [3, 1], false, true, sop_push_str;
+    stub_str_insert_up: true, 0, [2, 1], [3, 0], false, false, sop_insert;
+    stub_str_insert_dn: false, 1, [1, 4], [2, 0], false, false, sop_insert;
+    stub_str_insert_refused_up: true, 0, [3, 2], [4, 0], true, true, sop_insert;
+    stub_str_insert_str_up: true, 0, [1, 3], [2, 1], true, false, sop_insert_str;
+    stub_str_insert_str_dn: false, 0, [2, 2], [1, 3], false, false, sop_insert_str;
+    stub_str_insert_str_refused_dn: false, 2, [4, 1], [1, 1], false, true, sop_insert_str;
+    stub_str_extend_within_up: true, 0, [2, 1], [0, 0], false, false, sop_extend_within;
+    stub_str_extend_within_dn: false, 0, [3, 1], [0, 0], true, false, sop_extend_within;
+    stub_str_extend_within_refused_up: true, 1, [1, 2], [0, 0], false, true, sop_extend_within;
+    stub_str_replace_range_up: true, 0, [2, 1], [3, 2], false, false, sop_replace_range;
+    stub_str_replace_range_dn: false, 0, [1, 2], [4, 1], true, false, sop_replace_range;
+    stub_str_replace_range_refused_dn: false, 0, [3, 1], [2, 2], false, true, sop_replace_range;
+    stub_str_replace_range_shorter_up: true, 0, [3, 2], [1, 1], false, true, sop_replace_range_shorter;
+    stub_str_replace_range_shorter_dn: false, 0, [4, 1], [2, 0], true, false, sop_replace_range_shorter;
+    stub_str_reserve_up: true, 0, [1, 2], [0, 0], false, false, sop_reserve;
+    stub_str_reserve_dn: false, 0, [2, 2], [0, 0], true, false, sop_reserve;
+    stub_str_reserve_refused_up: true, 2, [3, 0], [0, 0], false, true, sop_reserve;
+    stub_str_shrink_up: true, 0, [2, 1], [0, 0], false, false, sop_shrink_and_box;
+    stub_str_shrink_dn: false, 0, [1, 3], [0, 0], false, false, sop_shrink_and_box;
+}
+
+/// Indices that are out of range or inside a character: `try_insert`, `try_insert_str`, `try_replace_range` (bad start,
+/// bad end, start > end) and `try_extend_from_within` never return (std::string::String panics in exactly these cases).
+pub(crate) fn ob_stub_string_bad_index<const UP: bool>(pat: [usize; 2]) {
+    let stub = StubBump::<UP>::new();
+    let s0 = sym_text(pat);
+    let Ok(mut s) = BumpString::try_from_str_in(s0.as_str(), &stub) else {
+        panic!("not refused");
+    };
+    let total = pat[0] + pat[1];
+    let is_b = |i: usize| i == 0 || i == pat[0] || i == total;
+    let (i, j): (usize, usize) = (kani::any(), kani::any());
+    kani::assume(i <= total + 1 && j <= total + 1);
+    let op: u8 = kani::any();
+    kani::assume(op < 5);
+    match op {
+        0 => {
+            kani::assume(!is_b(i));
+            let _ = s.try_insert(i, 'x');
+        }
+        1 => {
+            kani::assume(!is_b(i));
+            let _ = s.try_insert_str(i, "xy");
+        }
+        2 => {
+            kani::assume(!is_b(i) || !is_b(j) || i > j);
+            let _ = s.try_replace_range(i..j, "z");
+        }
+        3 => {
+            kani::assume(!is_b(i) || !is_b(j) || i > j);
+            let _ = s.try_extend_from_within(i..j);
+        }
+        _ => {
+            kani::assume(!is_b(i) && i < total);
+            s.truncate(i);
+        }
+    }
+    kani::cover!(true, "must-not-reach: a string operation returned on an out-of-range or non-boundary index");
+    core::mem::forget(s);
+}
+
+macro_rules! stubstr_bad {
+    ($($name:ident: $up:expr, [$a:expr, $b:expr];)*) => {$(
+        #[kani::proof]
+        #[kani::unwind(12)]
+        #[kani::should_panic]
+        pub(crate) fn $name() {
+            ob_stub_string_bad_index::<$up>([$a, $b]);
+        }
+    )*};
+}
+stubstr_bad! {
+    stub_str_bad_index_up_2_3: true, [2, 3];
+    stub_str_bad_index_dn_4_1: false, [4, 1];
+    stub_str_bad_index_up_3_2: true, [3, 2];
 }
